@@ -8,7 +8,7 @@ from props.base import tup, norm_key
 UNKNOWN = 99
 
 
-def state_case(rnd, removal=None, max_calls=10, family=None, malformed=0.07, isolated=True):
+def state_case(rnd, removal=None, max_calls=10, family=None, malformed=0.07, isolated=True, very_long=False):
     directed = rnd.random() < 0.5
     if removal is None:
         removal = rnd.random() < 0.85
@@ -26,7 +26,7 @@ def state_case(rnd, removal=None, max_calls=10, family=None, malformed=0.07, iso
         classes.append('reciprocal')
     if rnd.random() < gen.MANY_RUNS_P:
         # LONG timeline: one pair with 18..45 separate runs of one to three instants (plus what the history had)
-        k = rnd.choice([rnd.randint(18, 45), rnd.randint(18, 45), rnd.randint(65, 100), rnd.randint(129, 140)])
+        k = rnd.choice([rnd.randint(18, 45), rnd.randint(18, 45), rnd.randint(65, 100), rnd.randint(129, 140), rnd.randint(257, 300) if very_long else rnd.randint(129, 140)])
         a, b = rnd.choice([(1, 2), (2, 1), (2, 3)])
         t0 = rnd.randint(0, 3)
         long_tl = [('add', 0, a, b, t0 + 6 * i, rnd.choice([None, t0 + 6 * i + 2, t0 + 6 * i + 3])) for i in range(k)]
@@ -232,3 +232,15 @@ def alias_oracle(prog, ri):
                 r1 if not isinstance(r1, list) else r1[:3], r2 if not isinstance(r2, list) else r2[:3])))
             break
     return fails
+
+
+def run_cutting_window(rnd, hist):
+    """a window that starts strictly INSIDE a multi-instant span of the history and ends a random distance later (inside the
+    same run, a few runs later, far later): the window shapes a random pick over the probe instants rarely draws on a long
+    timeline.  None when the history has no span of two instants or more."""
+    spans = [(o[4], o[5]) for o in hist if o[0] == 'add' and o[4] is not None and o[5] is not None and o[5] - o[4] >= 2]
+    if not spans:
+        return None
+    t, e = rnd.choice(spans)
+    a = rnd.randint(t + 1, e - 1)
+    return (a, a + rnd.choice([0, 1, 2, 5, 13, 40, 400, 2000]))
